@@ -647,8 +647,14 @@ def kind_checked(a, call, ix, f, fns=None, is_int=False):
                         return True
     # (3) the call is inside the branch chosen by a kind test of the operand
     for a_ in anc:
+        subj = None
         if a_.get("k") == "if" and contains(a_["then"], call):
             subj = a_["cond"]
+        elif a_.get("k") == "match":
+            for arm_ in a_["arms"]:
+                if "guard" in arm_ and contains(arm_["body"], call):
+                    subj = arm_["guard"]          # `Kind::Init if x.get_type(ctx).is_bit_vector() => builder(x)`
+        if subj is not None:
             locs = set()
             for x in walk(subj):
                 if x.get("k") == "local":
